@@ -38,7 +38,9 @@ def jobs(tier, seed):
                 dirbc = (gidx + p) % 2
                 J.append(dict(entry='h_cache_flags', args=[nr, nt, nC, dirbc, gidx, p, 1 + (p % 2)], label=f'cache_flags {nr}x{nt} nC={nC} geo={gidx} prof={p}',
                               cls='cache_flags', reach=['cache-variants-computed'], diff=(nr == 5 and p == 0), eager=False))
-    lshapes = [(9, 8, -1, -1), (9, 8, 4, 2)] if tier == 'quick' else [(9, 8, -1, -1), (9, 8, 4, 2), (9, 8, 3, 3), (11, 8, 5, 2), (9, 12, -1, -1), (13, 8, -1, -1)]
+    # split classes: coarse circle i_r <-> fine circle 2 i_r inside the fine circle section / inside the fine RADIAL section
+    # (2 (nCc-1) >= nCf), coarse radial nodes whose fine partners lie in the fine CIRCLE section (2 nCc < nCf)
+    lshapes = [(9, 8, -1, -1), (9, 8, 4, 2), (9, 8, 3, 3), (9, 8, 6, 1)] if tier == 'quick' else [(9, 8, -1, -1), (9, 8, 4, 2), (9, 8, 3, 3), (9, 8, 2, 3), (9, 8, 6, 1), (11, 8, 5, 2), (11, 8, 3, 4), (9, 12, -1, -1), (13, 8, -1, -1), (13, 8, 4, 5)]
     for (nr, nt, nCf, nCc) in lshapes:
         for gidx in geos:
             for flags in (3, 2, 1) if tier == 'quick' else (3, 2, 1, 0):
